@@ -43,10 +43,15 @@
 (* gtab.Read, os2.Read, ... each on the bytes its own writer produced):    *)
 (*   the stream is ONE extent of L bytes, read front to back in pieces.    *)
 (*   A format may have legitimately optional tails: positions at which the *)
-(*   stream may end although the writer produced more (OS/2: the version 0 *)
-(*   core of 68 bytes, then 78, 86; a "loca" table is complete after any   *)
-(*   whole number of entries).  The set of such positions is part of the   *)
-(*   reader's contract (opt); everywhere else the law is                   *)
+(*   stream may end although the writer produced more.  An end is optional *)
+(*   only if a stream with THESE header fields is complete there: opt is a *)
+(*   function of the stream (OS/2: after the 68-byte core, whatever the    *)
+(*   version word says -- the reader's documented leniency for short Apple *)
+(*   tables; a stream declaring version 0 or 1 is decoded up to byte 78    *)
+(*   only, one declaring version 2..5 is complete at 96 bytes and nowhere  *)
+(*   before; a "loca" table is complete after every whole entry of 2 or 4  *)
+(*   bytes, by head.indexToLocFormat).  The set of such positions is part  *)
+(*   of the reader's contract (opt); everywhere else the law is            *)
 (*     cut strictly inside the extent the writer produced  =>  error.      *)
 (*   SStep   one piece: a cut source that ends exactly at an optional      *)
 (*           position ends the read without error; an end inside a piece,  *)
